@@ -132,11 +132,25 @@ def gen_heap(ctx, fail="0"):
 # far-apart times: differences of 2^31 s and more, and multiples of 2^32 s (a comparison that
 # truncates the difference of two time_t values to int gets these wrong)
 WIDE_BASES = [0, 0, 5, 2 ** 31 - 1, 2 ** 31, 2 ** 31 + 5, 2 ** 32, 2 ** 32 + 5, 3 * 10 ** 9, 2 ** 33, 2 ** 40]
+# the whole range of a 64-bit time_t, next to ordinary times: 'never' values (the largest time_t, 2^62,
+# 10^13 s), the far past, and the neighbourhood of INT64_MAX / 10^6 and of 2^63 / 10^3 (where a
+# conversion to a 64-bit count of micro- or milliseconds starts to wrap); a comparison has to follow
+# (tv_sec, tv_usec) itself
+T_MIN, T_MAX = -2 ** 63, 2 ** 63 - 1
+FAR_BASES = [0, 0, 5, 1700000000, 1700000000, 2 ** 31 + 5, -1700000000,
+             T_MAX, T_MAX - 3, T_MAX - 100, T_MIN, T_MIN + 3, T_MIN + 100,
+             2 ** 62, 2 ** 62 - 2, -2 ** 62, 10 ** 13, -10 ** 13, 10 ** 16, -10 ** 16, 2 ** 53, 2 ** 44,
+             T_MAX // 10 ** 6, T_MAX // 10 ** 6 + 1, T_MAX // 10 ** 6 + 40, -(T_MAX // 10 ** 6) - 1, -(T_MAX // 10 ** 6) - 40,
+             2 * (T_MAX // 10 ** 6) + 2, T_MAX // 1000 + 1, -(T_MAX // 1000) - 2]
+
+
+def clamp_t(sec):
+    return max(T_MIN, min(T_MAX, sec))
 
 
 def rtv(r, span):
-    if isinstance(span, tuple):        # ("wide", n): a base from WIDE_BASES plus a small offset
-        sec = r.choice(WIDE_BASES) + r.randrange(-2, span[1])
+    if isinstance(span, tuple):        # ("wide" | "far", n): a base from the list plus a small offset
+        sec = clamp_t(r.choice(FAR_BASES if span[0] == "far" else WIDE_BASES) + r.randrange(-2, span[1]))
     else:
         sec = r.randrange(-2, span)
     usec = r.choice([0, 0, 1, 499999, 999999, r.randrange(1000000)])
@@ -171,16 +185,16 @@ def gen_tq_ops(r, nops, span, drain=True):
             elif c < 0.5:
                 tv = (old[0], min(999999, old[1] + r.choice([1, 2, 1000])))
             elif c < 0.95:
-                tv = (old[0] + r.randrange(1, 4), r.choice([0, old[1], 999999]))
+                tv = (clamp_t(old[0] + r.randrange(1, 4)), r.choice([0, old[1], 999999]))
             else:
-                tv = (old[0] - 1, old[1])          # not an increase: skipped by both drivers
+                tv = (clamp_t(old[0] - 1), old[1])  # not an increase (unless clamped): skipped by both drivers
             ops.append("U%d=%d.%d" % (i, tv[0], tv[1]))
             if i in live and tv >= old:
                 live[i] = tv
         elif k == "P":
             if live and r.random() < 0.7:
                 m = min(live.values())
-                tv = r.choice([m, m, (m[0], m[1] - 1), (m[0], m[1] + 1), (m[0] - 1, 999999), (m[0] + 1, 0)])
+                tv = r.choice([m, m, (m[0], m[1] - 1), (m[0], m[1] + 1), (clamp_t(m[0] - 1), 999999), (clamp_t(m[0] + 1), 0)])
             else:
                 tv = rtv(r, span)
             ops.append("P%d.%d" % tv)
@@ -192,8 +206,11 @@ def gen_tq_ops(r, nops, span, drain=True):
         else:
             ops.append("G")
     if drain:
-        top = (2 ** 41 + span[1]) if isinstance(span, tuple) else span
-        ops += ["P%d.0" % (top + 10)] * (len(live) + 3)
+        if isinstance(span, tuple) and span[0] == "far":
+            ops += ["P%d.999999" % T_MAX] * (len(live) + 3)
+        else:
+            top = (2 ** 41 + span[1]) if isinstance(span, tuple) else span
+            ops += ["P%d.0" % (top + 10)] * (len(live) + 3)
     return ops
 
 
@@ -202,9 +219,12 @@ def gen_tq(ctx, fail="0"):
     cases = []
     for _ in range(ctx.n(1200, 25000)):
         cls = r.random()
-        if cls < 0.12:
+        if cls < 0.08:
             nops, span = r.randrange(2, 60), ("wide", r.choice([1, 3, 10]))
             ctx.count("tq.wide-times")
+        elif cls < 0.2:
+            nops, span = r.randrange(2, 60), ("far", r.choice([1, 3, 10, 50]))
+            ctx.count("tq.far-times")
         elif cls < 0.6:
             nops, span = r.randrange(0, 40), r.choice([1, 2, 3, 10])
             ctx.count("tq.ops.0-40")
